@@ -53,6 +53,7 @@ viol(const char * key, const char * fmt, ...)
 }
 
 static int guard_fired;
+static int busy_loop;
 
 static int
 guard_cb(void * cookie)
@@ -80,8 +81,13 @@ run_until(int * done, uint64_t guard_us)
 			viol("loop:events_run-failed", "events_run returned non-zero");
 			break;
 		}
-		if (++n > 5000000)
-			vh_die("run_until: too many iterations");
+		/* Neither finished nor sleeping until the guard fires: a busy loop. */
+		if (++n > 5000000) {
+			viol("hang:busy-loop", "5000000 event-loop passes without the operation "
+			    "completing or the guard timer firing");
+			busy_loop = 1;
+			break;
+		}
 	}
 	if (!guard_fired)
 		events_timer_cancel(g);
@@ -173,7 +179,9 @@ scenario_reader(uint64_t key)
 	}
 	f->p_eintr = vh_chance(&R, 1, 2) ? 0 : 30;
 	f->p_spurious = vh_chance(&R, 1, 2) ? 0 : 30;
-	casesig = vh_fnv_u64(casesig, (uint64_t)end * 10 + f->seg_max);
+	/* the end of the stream shows as POLLIN, as POLLHUP/POLLERR alone, or both */
+	f->end_signal = (int)vh_below(&R, 3);
+	casesig = vh_fnv_u64(casesig, (uint64_t)end * 10 + f->seg_max + (uint64_t)f->end_signal * 3);
 	tr("reader: peer sends %llu bytes then %s; recv segments <= %u:", (unsigned long long)total,
 	    end == SIMK_END_EOF ? "EOF" : end == SIMK_END_ERROR ? "error" : "stalls", f->seg_max);
 
@@ -473,6 +481,11 @@ main(int argc, char ** argv)
 		else
 			scenario_writer(seed ^ (i * 104729));
 		printf("SIG %016llx 1\n", (unsigned long long)casesig);
+		if (busy_loop) {
+			/* the event loop is stuck: start afresh with the next case */
+			fflush(NULL);
+			_exit(3);
+		}
 		if (nsamples < 3 && strlen(trace) > 80) {
 			nsamples++;
 			printf("SAMPLE %s\n", trace);
